@@ -4,6 +4,8 @@ import Refine.Lemmas.ContainersAdj
 import Refine.Lemmas.ContainersAdjSeq
 import Refine.Lemmas.ContainersSortDbl
 import Refine.Lemmas.ContainersListDict
+import Refine.Lemmas.ContainersAdjCheck
+import Refine.Lemmas.ContainersCheck
 import Mathlib.Data.Int.Order.Basic
 
 /-!
@@ -319,5 +321,19 @@ example : ((RAdj.create.add 3 7).1.add 3 8).1.refsOf 3 = [8, 7] := by decide
 example : (RAdj.run [.add 3 7, .add 3 8, .add 12 1, .remove 3 7, .addUniquely 3 8, .remove 4 1] RAdj.create).2 =
     [.ok, .ok, .ok, .ok, .ok, .invalid] := by decide
 example : Status.failure ∉ (RAdj.run [.add 3 7, .add 3 8, .add 12 1, .remove 3 7] RAdj.create).2 := by decide
+
+/-! ## the invariants are evaluated on real implementation states
+
+The `cont_state_invariants` stream feeds full state dumps of the C containers to the driver, which runs these
+executable checkers; they decide exactly the invariants the theorems above are about. -/
+
+theorem adj_invCheck_iff_Inv (s : RAdj) : s.invCheck = true ↔ RAdj.Inv s := RAdj.invCheck_iff s
+
+theorem dict_invCheck_iff_Inv (d : RDict) : d.invCheck = true ↔ RDict.Inv d := RDict.invCheck_iff d
+
+theorem list_invCheck_iff_Inv (l : RList) : l.invCheck = true ↔ RList.Inv l := RList.invCheck_iff l
+
+example : (((RAdj.create.add 3 7).1.add 3 8).1.remove 3 7).1.invCheck = true := by decide
+example : ({ RAdj.create with first := (0 : Int) :: RAdj.create.first.tail } : RAdj).invCheck = false := by decide
 
 end Refine.Props.C14
